@@ -122,6 +122,14 @@ func condAtomsDepth(v ssa.Value, inline int) map[string]bool {
 		// conditions controlling block b: the If of b itself when it ends in one is
 		// handled by the caller; here: the Ifs of dominators one of whose
 		// successors dominates b (up to 3 levels)
+		// a block entered from several branches (the body of 'if a || b') depends on each of their conditions
+		if len(b.Preds) > 1 {
+			for _, pr := range b.Preds {
+				if ifi, ok := pr.Instrs[len(pr.Instrs)-1].(*ssa.If); ok {
+					walk(ifi.Cond, depth+1)
+				}
+			}
+		}
 		cur := b
 		for lvl := 0; lvl < 3 && cur != nil; lvl++ {
 			d := cur.Idom()
